@@ -260,9 +260,10 @@ def run(case: dict, ctx) -> dict:
     if s1 == s2:
         s2 = (s1 + 1) % 65536
     stale = rng.choice([0, 0, 1, 2, 3])
+    emptied = rng.choice([0, 0, 0, 1, 2])
     # one object table with more entries than fit a 4 KiB page (its length is its entry count): many of them unallocated
     big_ot = {"first_table_pages": 3, "pad_objects": rng.randrange(230, 520)} if rng.random() < 0.2 else {}
-    raw, meta = w.build(rng, tree, ntables=ntables, seqs=(s1, s2), stale_tables=stale, free_prob=rng.choice([0, 0.15, 0.4]),
+    raw, meta = w.build(rng, tree, ntables=ntables, seqs=(s1, s2), stale_tables=stale, free_prob=rng.choice([0, 0.15, 0.4]), emptied_tables=emptied,
                         table_order=rng.choice(["shuffle", "shuffle", "seq"]), extra_object_tables=rng.choice([0, 0, 1, 3]),
                         trailer_mode=rng.choice(["12", "12", "0", "rand"]), stale_same_layout=rng.random() < 0.7,
                         replay_entries=rng.choice([0, 0, 3]), inactive_slot=rng.choice(["valid", "valid", "zero", "garbage"]), **big_ot)
@@ -347,6 +348,7 @@ def run(case: dict, ctx) -> dict:
     cnt["values_compared"] = nvals
     cnt["file_object_values"] = meta["file_objects"]
     cnt["stale_tables"] = stale * ntables if stale else 0
+    cnt["emptied_key_tables"] = emptied
     cnt["multi_table_files"] = int(ntables > 1)
     cnt["extra_object_table_files"] = int(meta["extra_object_tables"] > 0)
     kinds = sorted({v.kind for v in _leaves(tree)})
